@@ -31,20 +31,33 @@ class ResWorld(World):
     name = "W-res"
 
     def __init__(self, variant: str = "full", low_energy: bool = True, pairs: bool = True, prices: bool = False,
-                 mechs=("quiet", "small", "quiet"), idle_timeout: int = 120, gas: bool = False, name: str = "", atomic_pairs: bool = False, v0_energy=None, split_base: bool = False, throttle: float = 1.0, slots: int = 1, twin_base: bool = False):
+                 mechs=("quiet", "small", "quiet"), idle_timeout: int = 120, gas: bool = False, name: str = "", atomic_pairs: bool = False, v0_energy=None, split_base: bool = False, throttle: float = 1.0, slots: int = 1, twin_base: bool = False, auto: str = "", v2_energy=None, s1_site: str = "F1", v2_site: str = "X1"):
         super().__init__()
         self.pairs = pairs
         if name:
             self.name = name
         S = sites()
         self.S = S
-        cfg = make_config(step=60, cancel=240, idle_timeout=idle_timeout)
+        # auto: the built-in Dispatcher + ChargingFleetManager run beside the scripted controller; "stc" selects the second
+        # station-search strategy (shortest_time_to_charge), whose ranking replays the sessions of plugged and queued vehicles
+        dconf = None
+        if auto:
+            dconf = {"matching_range_km_threshold": 0.0, "charging_range_km_threshold": 1.0, "charging_range_km_soft_threshold": 6.0,
+                     "max_search_radius_km": 20.0}
+            if auto == "stc":
+                dconf["charging_search_type"] = "shortest_time_to_charge"
+        cfg = make_config(step=60, cancel=240, idle_timeout=idle_timeout, dispatcher=dconf)
         self.env = make_env(cfg)
+        if auto:
+            from nrel.hive.dispatcher.instruction_generator.charging_fleet_manager import ChargingFleetManager
+            from nrel.hive.dispatcher.instruction_generator.dispatcher import Dispatcher
+
+            self.builtin_generators = (Dispatcher(cfg.dispatcher), ChargingFleetManager(cfg.dispatcher))
         rn = HaversineRoadNetwork(sim_h3_resolution=15)
         self.rn = rn
         env = self.env
         s0 = mk_station(env, rn, "s0", S["N1"], {"DCFC": slots, "LEVEL_2": 1, "GAS_PUMP": 1} if gas else {"DCFC": slots, "LEVEL_2": 1}, one_row_per_plug=slots > 1)
-        s1 = mk_station(env, rn, "s1", S["F1"], {"DCFC": 1})
+        s1 = mk_station(env, rn, "s1", S[s1_site], {"DCFC": 1})
         bs = mk_station(env, rn, "bs", S["X1"], {"LEVEL_2": slots}, one_row_per_plug=slots > 1)
         # slots > 1: resources shared by several holders at once (a second release is not stopped by the count guard)
         b0 = mk_base(rn, "b0", S["X1"], stalls=slots, station_id="bs")
@@ -55,6 +68,8 @@ class ResWorld(World):
             v0 = mk_vehicle(env, rn, "v0", S["A"], mechs[0], energy=v0_energy)
         v1 = mk_vehicle(env, rn, "v1", S["N1"], mechs[1], energy=0.70 if mechs[1] == "small" else None)
         v2 = mk_vehicle(env, rn, "v2", S["X1"], mechs[2], soc=0.5, energy=0.05 if mechs[2] == "ice" else None)
+        if v2_energy is not None:
+            v2 = mk_vehicle(env, rn, "v2", S[v2_site], mechs[2], energy=v2_energy)
         if throttle < 1.0:
             # the station's DCFC plug was throttled at run time (grid co-simulation hook): 12 kW instead of 50 kW
             s0 = s0.scale_charger_rate("DCFC", throttle).unwrap()
